@@ -344,6 +344,17 @@ func TestPropOneLiners(t *testing.T) {
 	rec.ClassN("one-line family (enumerated completely)", n)
 }
 
+// TestPropDeep: every layout nested 0..24 levels deep in each kind of block (package oneline).
+func TestPropDeep(t *testing.T) {
+	shard, shards := ev.Shard()
+	n := 0
+	oneline.EachDeep(shard, shards, 24, func(name, src string) {
+		n++
+		check(t, src, "nested "+name+": ")
+	})
+	rec.ClassN("layouts nested 0..24 levels deep (enumerated completely)", n)
+}
+
 // TestPropLayouts enumerates the layout family completely: expressions, parameter lists, statement
 // heads and attribute lists with every placement of blanks and line breaks between their tokens.
 func TestPropLayouts(t *testing.T) {
